@@ -11,6 +11,9 @@ UNICODE_ALPHABET = ['a', 'e', '\u0301', '\u2126', 'o', '\u0308']   # combining m
 
 
 def charset(nchars, with_space=False, kind='ascii'):
+    if kind == 'arabic':
+        chars = ['\u0627', '\u0628', '1', '2', '.', '\u062a'][:max(5, nchars)]     # letters, digits and punctuation
+        return chars + ([' '] if with_space else [])
     if kind == 'big':
         chars = [chr(0x100 + i) for i in range(nchars)]       # a charset the size of a real OCR model's
         return chars + ([' '] if with_space else [])
